@@ -16,6 +16,13 @@
  *           qb2    the same server; a legitimate client has asked for /L with Q-Block2 (NUM 0, M=1, 16 bytes): the server has sent the
  *                  payload set and holds the body for "continue" / missing-block requests
  *           cli    the hostile datagrams go to a CLIENT session that has a Confirmable GET outstanding
+ *           qc2    the hostile datagrams go to a CLIENT session in the middle of a Q-Block2 transfer: Q-Block negotiated (block mode
+ *                  as after a successful probe: the probe itself would block in coap_client_delay_first() on the virtual clock),
+ *                  NON GET /L with Q-Block2 (NUM 0, M 1, SZX 0) sent, the server has answered with the payload set (7 blocks of the
+ *                  100-byte body) of which blocks 0 and 2 have reached the client.  A datagram with the 2-byte token abcd gets the
+ *                  token the client really used on the wire (an on-path attacker knows it); the item `@k` is the server's genuine
+ *                  datagram k of the payload set (k = 0..6: replays, reordering).  After the datagrams the virtual clock is moved
+ *                  over NON_TIMEOUT / NON_RECEIVE_TIMEOUT 8 times with the client's timers run (recovery requests, expiry).
  * src       same | other   datagrams claim the legitimate client's address (same session) or another port
  *
  * Output: one token per datagram  `h<handler calls>:t<datagrams emitted>[:<K><code>:<mid>]` (first emission only:
@@ -116,7 +123,9 @@ static void step(char *line) {
   const char *scen = w[1];
   int lvl = atoi(w[2]);
   int same = !strcmp(w[3], "same");
-  int scen_cli = !strcmp(scen, "cli");
+  int scen_qc2 = !strcmp(scen, "qc2");
+  int scen_cli = !strcmp(scen, "cli") || scen_qc2;
+  unsigned qc2_first = 0, qc2_n = 0;
   coap_set_log_level(COAP_LOG_EMERG);
   sim_reset();
   sim_log_events = 0;
@@ -148,6 +157,8 @@ static void step(char *line) {
     coap_oscore_conf_t *oc = coap_new_oscore_conf(c, NULL, NULL, 0);
     if (!oc || !coap_context_oscore_server(srv, oc)) { printf("no-oscore"); sim_free_all(0); return; }
   }
+  if (scen_qc2)
+    coap_context_set_block_mode(cli, COAP_BLOCK_USE_LIBCOAP | COAP_BLOCK_SINGLE_BODY | COAP_BLOCK_TRY_Q_BLOCK);
   cs = sim_new_client(cli, ntohs(ep->bind_addr.addr.sin.sin_port));
   uint8_t tok[2] = {0xab, 0xcd};
   if (!strcmp(scen, "obs")) {
@@ -196,6 +207,20 @@ static void step(char *line) {
     unsigned from = sim_ntx;
     coap_send(cs, p);
     deliver_pending_from(from);
+  } else if (scen_qc2) {
+    uint8_t blk = 0x08 | 0x00;             /* NUM 0, M 1, SZX 0 */
+    cs->block_mode = (cs->block_mode | COAP_BLOCK_HAS_Q_BLOCK) & ~(COAP_BLOCK_TRY_Q_BLOCK | COAP_BLOCK_PROBE_Q_BLOCK);
+    coap_pdu_t *p = sim_make_pdu(cs, COAP_MESSAGE_NON, COAP_REQUEST_CODE_GET, 0x1000, tok, 2, NULL, 0);
+    coap_add_option(p, COAP_OPTION_URI_PATH, 1, (const uint8_t *)"L");
+    coap_add_option(p, COAP_OPTION_Q_BLOCK2, 1, &blk);
+    unsigned from = sim_ntx;
+    coap_send(cs, p);
+    if (sim_ntx != from + 1) { printf("no-request"); sim_free_all(0); return; }
+    sim_deliver(&sim_tx[from]);            /* the request reaches the server: the payload set is sent */
+    qc2_first = from + 1; qc2_n = sim_ntx - qc2_first;
+    if (qc2_n < 3) { printf("no-payload-set"); sim_free_all(0); return; }
+    sim_deliver(&sim_tx[qc2_first]);       /* block 0 and block 2 reach the client */
+    sim_deliver(&sim_tx[qc2_first + 2]);
   } else if (scen_cli) {
     coap_pdu_t *p = sim_make_pdu(cs, COAP_MESSAGE_CON, COAP_REQUEST_CODE_GET, 0x1000, tok, 2, NULL, 0);
     coap_add_option(p, COAP_OPTION_URI_PATH, 1, (const uint8_t *)"r");
@@ -210,8 +235,30 @@ static void step(char *line) {
   char *save = NULL;
   int first = 1;
   for (char *h = strtok_r(w[4], ";", &save); h; h = strtok_r(NULL, ";", &save)) {
-    size_t len; uint8_t *d = h_unhex(h, &len);
-    if (!d) { printf("bad-op"); sim_free_all(0); return; }
+    size_t len; uint8_t *d;
+    if (scen_qc2 && h[0] == '@') {         /* the server's genuine datagram k */
+      unsigned k = (unsigned)atoi(h + 1);
+      if (k >= qc2_n) { printf("bad-op"); sim_free_all(0); return; }
+      len = sim_tx[qc2_first + k].len;
+      d = malloc(len ? len : 1);
+      memcpy(d, sim_tx[qc2_first + k].data, len);
+    } else {
+      d = h_unhex(h, &len);
+      if (!d) { printf("bad-op"); sim_free_all(0); return; }
+      if (scen_qc2 && len >= 6 && (d[0] & 0x0f) == 2 && d[4] == 0xab && d[5] == 0xcd) {
+        /* token abcd -> the token of the client's request on the wire (sim_tx[qc2_first - 1]) */
+        const sim_dgram_t *rq = &sim_tx[qc2_first - 1];
+        size_t tkl = rq->data[0] & 0x0f;
+        if (tkl <= 8 && rq->len >= 4 + tkl) {
+          uint8_t *e = malloc(len + 8);
+          memcpy(e, d, 4);
+          e[0] = (uint8_t)((d[0] & 0xf0) | tkl);
+          memcpy(e + 4, rq->data + 4, tkl);
+          memcpy(e + 4 + tkl, d + 6, len - 6);
+          free(d); d = e; len = len - 2 + tkl;
+        }
+      }
+    }
     int h0 = n_handler;
     tx_mark = sim_ntx;
     if (scen_cli) sim_inject_session(cs, d, len); else sim_inject_endpoint(ep, &src, d, len);
@@ -223,6 +270,14 @@ static void step(char *line) {
       if (t->decoded) printf(":%c%d:%d", sim_kind[t->type], t->code, t->mid); else printf(":raw");
     }
     free(d);
+  }
+  if (scen_qc2) {
+    /* the payload-set timer (NON_TIMEOUT / NON_RECEIVE_TIMEOUT): recovery requests for the missing blocks, then giving up
+     * and expiry of the lg_crcv; bounded: 8 rounds of 2.5 s */
+    for (int k = 0; k < 8; k++) {
+      sim_now += 2500;
+      sim_prepare(cli);
+    }
   }
   coap_set_log_level(COAP_LOG_EMERG);
   printf(" canary=%s", canary(scen_cli) ? "ok" : "fail");
